@@ -94,5 +94,67 @@ pub fn truncate_utf8(bytes: &Vec<u8>, max_bytes: usize) -> (ret: (String, bool, 
     ensures true
 //@@ end
 
+// ---- the artifact_fetch tool: the same page arithmetic, reported through a JSON object (R6: members are evaluated into a typed
+// stand-in whose numeric members keep their value) -----------------------------------------------------------------------------
+pub struct J { pub filler: u8 }
+pub uninterp spec fn j_num(j: J) -> Option<int>;
+pub trait Jsonable { spec fn as_num(&self) -> Option<int>; }
+impl Jsonable for u64 { open spec fn as_num(&self) -> Option<int> { Some(*self as int) } }
+impl Jsonable for usize { open spec fn as_num(&self) -> Option<int> { Some(*self as int) } }
+impl Jsonable for bool { open spec fn as_num(&self) -> Option<int> { if *self { Some(1int) } else { Some(0int) } } }
+impl Jsonable for String { open spec fn as_num(&self) -> Option<int> { None } }
+#[verifier::external_body] pub fn vj<T: Jsonable>(t: &T) -> (j: J) ensures j_num(j) == t.as_num() { unimplemented!() }
+pub struct Value { pub id: J, pub path: J, pub offset_bytes: J, pub bytes: J, pub total_bytes: J, pub truncated: J }
+pub mod serde_json { use vstd::prelude::*; verus! { pub struct Value { pub filler: u8 } } }
+pub struct ToolInvocation { pub name: String, pub args: serde_json::Value, pub timeout_ms: Option<u64> }
+pub struct ToolOutput { pub stdout: Vec<String>, pub stderr: Vec<String>, pub exit_code: i32, pub artifacts: Option<Value> }
+impl ToolOutput {
+    #[verifier::external_body] pub fn failure(e: Vec<String>) -> (r: ToolOutput) ensures r.artifacts is None { unimplemented!() }
+    #[verifier::external_body] pub fn invalid_args(e: String) -> (r: ToolOutput) ensures r.artifacts is None { unimplemented!() }
+}
+pub struct BuiltinToolConfig { pub workspace_root: PathBuf, pub max_bytes: usize, pub blobs_dir: PathBuf }
+#[verifier::external_body] pub fn artifacts_blobs_dir(config: &BuiltinToolConfig) -> (r: PathBuf) ensures r == config.blobs_dir { unimplemented!() }
+#[verifier::external_body] pub fn path_rel(root: &PathBuf, path: &PathBuf) -> String { unimplemented!() }
+//@@ item crates/rip-tools/src/builtins/artifact_fetch.rs struct ArtifactFetchArgs
+pub uninterp spec fn fetch_args_of(v: serde_json::Value) -> ArtifactFetchArgs;
+#[verifier::external_body] pub fn parse_args(v: serde_json::Value) -> (r: Result<ArtifactFetchArgs, ToolOutput>)
+    ensures r matches Ok(a) ==> a == fetch_args_of(v), r matches Err(o) ==> o.artifacts is None,
+{ unimplemented!() }
+#[verifier::external_body] pub fn is_sha256_hex(id: &String) -> (r: bool) ensures r == is_hash(id@) { unimplemented!() }
+impl PathBuf { #[verifier::external_body] pub fn join_string(&self, s: &String) -> (r: PathBuf) ensures r == blob_path(*self, s@) { unimplemented!() } }
+
+//@@ fn crates/rip-tools/src/builtins/artifact_fetch.rs run_artifact_fetch rules=R6,R9
+//@@ alias std::fs::metadata fsx::metadata
+//@@ rewrite vec![0u8; max_bytes] => zeroed(max_bytes)
+//@@ rewrite artifacts_blobs_dir(config).join(&args.id) => artifacts_blobs_dir(config).join_string(&args.id)
+//@@ rewrite vec![content] => one_string(content)
+//@@ sig
+    ensures
+        ret.artifacts matches Some(a) ==> ({
+            let args = fetch_args_of(invocation.args);
+            let off: int = match args.offset_bytes { Some(o) => o as int, None => 0 };
+            let page: int = match args.max_bytes { Some(m) => m as int, None => config.max_bytes as int };
+            let blob = blob_of(blob_path(config.blobs_dir, args.id@));
+            &&& is_hash(args.id@)                                                                                     // [artifact_fetch.only_content_hashes_are_opened]
+            &&& j_num(a.offset_bytes) == Some(off) && j_num(a.total_bytes) == Some(blob.len() as int)                  // [artifact_fetch.reports_the_requested_offset_and_the_blob_length]
+            &&& j_num(a.bytes) matches Some(used) && 0 <= used <= page && (used > 0 ==> off + used <= blob.len())      // [artifact_fetch.range_within_page_and_blob]
+            &&& ret.stdout@.len() == 1
+            // the page text decodes exactly the `bytes` bytes of the blob that start at `offset_bytes`
+            &&& (j_num(a.bytes)->Some_0 > 0 ==> ret.stdout@[0]@ == lossy(blob.subrange(off, off + j_num(a.bytes)->Some_0)))   // [artifact_fetch.page_text_decodes_exactly_the_reported_range]
+            &&& (j_num(a.truncated) == Some(0int) ==> off + j_num(a.bytes)->Some_0 >= blob.len())                       // [artifact_fetch.untruncated_means_the_end_was_reached]
+        }),
+//@@ tail
+    proof {
+        let blob = blob_of(blob_path(config.blobs_dir, args.id@));
+        if used_bytes > 0 {
+            assert(read_bytes > 0);
+            assert(buf@.len() == read_bytes);
+            assert(buf@ =~= blob.subrange(offset as int, offset + read_bytes));
+            assert(buf@.subrange(0, used_bytes as int) =~= blob.subrange(offset as int, offset + used_bytes));
+        }
+    }
+//@@ end
+#[verifier::external_body] pub fn one_string(s: String) -> (v: Vec<String>) ensures v@.len() == 1 && v@[0] == s { unimplemented!() }
+
 } // verus!
 fn main() {}
